@@ -42,6 +42,14 @@ def run_case(case):
 		rdir = os.path.join(root, 'ref-genomes')
 		ks = KmerSpec(6, 'AT')
 		qpaths = [os.path.join(gdir, g + ('.fasta.gz' if z else '.fasta')) for g, z in zip(case['q'], case.get('qgz', [False] * len(case['q'])))]
+		if case.get('empties'):
+			# files whose sequences hold no occurrence of the prefix: their signatures are empty
+			edir = os.path.join(tmp, 'empty')
+			os.makedirs(edir, exist_ok=True)
+			for e in range(case['empties']):
+				p_ = os.path.join(edir, f'empty{e}.fasta')
+				open(p_, 'w').write(f'>e{e}\n' + 'CCCCGGGGCCCC' * (e + 1) + '\n')
+				qpaths.append(p_)
 		out = os.path.join(tmp, 'out.csv')
 		argv = ['dist', '--no-progress', '-o', out]
 		qchan = case.get('qchan', 'files')
@@ -50,7 +58,7 @@ def run_case(case):
 				argv += ['-q', p]
 		elif qchan == 'list':
 			lf = os.path.join(tmp, 'ql.txt')
-			open(lf, 'w').write(''.join(os.path.basename(p) + '\n' for p in qpaths))
+			open(lf, 'w').write(''.join((os.path.basename(p) if os.path.dirname(p) == gdir else p) + '\n' for p in qpaths))
 			argv += ['--ql', lf, '--qdir', gdir]
 		else:
 			sf = os.path.join(tmp, 'q.gs')
@@ -84,13 +92,15 @@ def run_case(case):
 					with (gzip.open if name.endswith('.gz') else open)(os.path.join(rdir, name), 'wb') as f:
 						f.write(raw)
 					rpaths.append(os.path.join(rdir, name))
+			if case.get('empties'):
+				rpaths = rpaths + [os.path.join(tmp, 'empty', f'empty{e}.fasta') for e in range(case['empties'])][::-1]
 			rsigs, rlabels = [_sig(p, ks) for p in rpaths], [spec_label(p) for p in rpaths]
 			if rchan == 'files':
 				for p in rpaths:
 					argv += ['-r', p]
 			elif rchan == 'list':
 				lf = os.path.join(tmp, 'rl.txt')
-				open(lf, 'w').write(''.join(os.path.basename(p) + '\n' for p in rpaths))
+				open(lf, 'w').write(''.join((os.path.basename(p) if os.path.dirname(p) == rdir else p) + '\n' for p in rpaths))
 				argv += ['--rl', lf, '--rdir', rdir]
 			else:
 				sf = os.path.join(tmp, 'r.gs')
@@ -131,6 +141,12 @@ def bounded(tier, seed):
 		k = rnd.choice([2, 3])
 		cases.append({'kind': 'cli', 'q': rnd.sample(allg, k), 'qgz': [rnd.random() < .3 for _ in range(k)], 'qchan': qc, 'rchan': rc, 'collide': True,
 		              'seed': rnd.randrange(1000), 'cores': rnd.choice([None, 2])})
+	# many more genome files than workers on both sides
+	for qc, rc, cores in (('files', 'files', 1), ('list', 'list', 2), ('files', 'square', 1)):
+		cases.append({'kind': 'cli', 'q': rnd.sample(allg, min(9, len(allg))), 'qchan': qc, 'rchan': rc, 'nr': 7, 'seed': rnd.randrange(1000), 'cores': cores})
+	# genomes without any k-mer (empty signatures: distance 0 to each other, 1 to everything else) on both sides, every channel
+	for qc, rc in (('files', 'files'), ('files', 'sigs'), ('sigs', 'files'), ('files', 'square'), ('sigs', 'square'), ('list', 'list')):
+		cases.append({'kind': 'cli', 'q': rnd.sample(allg, 2), 'qchan': qc, 'rchan': rc, 'nr': 2, 'seed': rnd.randrange(1000), 'cores': None, 'empties': 2})
 	n, failures, sample = 0, [], []
 	for c in cases:
 		r = run_case(c)
